@@ -141,6 +141,7 @@ func verifSetField(ptr interface{}, field string, v interface{})   {}
 func verifGetField(ptr interface{}, field string) interface{}      { return nil }
 func verifFieldPtr(ptr interface{}, field string) interface{}      { return nil }
 func verifInitMaps(ptr interface{})                                 {}
+func verifRaceScopeDeep(ptr interface{}, label string)              {}
 func verifRaceScope(ptr interface{}, label string)                 {}
 func verifParseIP(s string) []byte                                 { return nil }
 func verifParseCIDR(s string) (ip, mask []byte, ok bool)           { return nil, nil, false }
